@@ -4,6 +4,7 @@ import PttVerif.Proofs.C18Misc
 import PttVerif.Proofs.C18Misc2
 import PttVerif.Proofs.C18Subject
 import PttVerif.Proofs.C18Alias
+import PttVerif.Proofs.C18Move
 /-
 C18 — Byte-string primitives agree with their C counterparts and never crash.
 Property theorems only (helper lemmas live in Proofs/C18*.lean).  All statements are over arbitrary
@@ -629,5 +630,50 @@ example : histObserve [.strip 0 (.lit [97, 27, 91, 72, 98]), .strip 1 (.lit [27,
     .nb5 [97, 1, 164], .toBytes (.ref 1)] =
     some (.ok [(none, [[97, 98]]), (none, [[27, 91, 109, 120]]), (none, [[97, 98]]), (none, [[97]]),
       (none, [[27, 91, 109, 120]])]) := by rfl
+
+/-! ## ptt.StripANSIMoveCmd (ptt/kaede.go) -/
+
+/-- totality (the loop ends on every line, also when an ESC directly follows an ESC or a cut-off sequence) and the
+exact result: the two-state scan; the length never changes. -/
+theorem moveCmd_total (l : List Nat) :
+    stripANSIMoveCmd l = .ok (mvScan false l) ∧ (mvScan false l).length = l.length :=
+  ⟨stripANSIMoveCmd_eq_scan l, mvScan_length false l⟩
+
+/-- the clause: after StripANSIMoveCmd no `ESC code* final` with `code ∈ 0-9;,[` and `final ∈ ABCDfjHJRu` remains
+anywhere in the line — none that was there, and none that the rewriting could have formed. -/
+theorem moveCmd_no_move (l r : List Nat) (h : stripANSIMoveCmd l = .ok r) :
+    ¬ ∃ pre codes c post, r = pre ++ MV_ESC :: (codes ++ c :: post) ∧ (∀ x ∈ codes, mvIsCode x = true) ∧
+      mvIsMove c = true := by
+  rw [stripANSIMoveCmd_eq_scan] at h
+  cases h
+  intro hex
+  have := (mvHasMove_iff _).mpr hex
+  rw [(mvScan_no_move l).1] at this
+  cases this
+
+/-- the broken rule (seed C18-r5-1) as a witness: resuming the scan BEHIND the byte just examined swallows an ESC
+in that position — `ESC ESC [ 2 J` and `ESC [ 1 ; ESC [ H` keep their commands; the real scan defuses both. -/
+theorem moveCmd_skip_witness :
+    mvHasMove (mvScanSkip false [27, 27, 91, 50, 74]) = true ∧
+    mvHasMove (mvScanSkip false [27, 91, 49, 59, 27, 91, 72]) = true ∧
+    stripANSIMoveCmd [27, 27, 91, 50, 74] = .ok [27, 27, 91, 50, 115] ∧
+    stripANSIMoveCmd [27, 91, 49, 59, 27, 91, 72] = .ok [27, 91, 49, 59, 27, 91, 115] := by
+  refine ⟨by decide +kernel, by decide +kernel, by rfl, by rfl⟩
+
+/-! ## cmsys.StrcaseStartsWith on single bytes (seed C18-r5-2) -/
+
+/-- two single bytes match iff they are equal after folding `A`–`Z` only — in particular bytes that differ just
+in bit 5 match only when they are a letter pair. -/
+theorem startsWith_byte (a b : Nat) :
+    strcaseStartsWith [a] [b] = .ok (decide (ccharTolower a = ccharTolower b)) := by
+  rw [strcaseStartsWith_eq]
+  by_cases h : ccharTolower a = ccharTolower b <;> simp [hasPrefix, h]
+
+/-- the broken rule as a witness: `[`/`{`, `:`/0x1a and 0xC2/0xE2 differ in bit 5 only and must NOT match. -/
+theorem startsWith_bit5_witness :
+    (91 ^^^ 123) &&& 223 = 0 ∧ strcaseStartsWith [123] [91] = .ok false ∧
+    strcaseStartsWith [26] [58] = .ok false ∧ strcaseStartsWith [0xE2] [0xC2] = .ok false ∧
+    strcaseStartsWith [65] [97] = .ok true := by
+  refine ⟨by decide, by rfl, by rfl, by rfl, by rfl⟩
 
 end PttVerif.C18.Props
